@@ -101,13 +101,43 @@ func c15Measured(inputLen int, f func() (string, error)) string {
 }
 
 func c15DecodeUnknown(bs []byte, hints []reflect.Type) string {
-	return c15Measured(len(bs), func() (string, error) {
-		o, err := tl.DecodeUnknownObject(bs, hints...)
-		if err != nil {
-			return "", err
+	dec := func() string {
+		return c15Measured(len(bs), func() (string, error) {
+			o, err := tl.DecodeUnknownObject(bs, hints...)
+			if err != nil {
+				return "", err
+			}
+			return dumpAny(o), nil
+		})
+	}
+	if len(hints) == 0 {
+		return dec()
+	}
+	// The hint list is the CALLER's: `hints...` hands the library the caller's own slice (the client keeps one per
+	// request and decodes every message that names the request with it — a broken-off answer, then the complete one).
+	// It must come back as it was, and a second decoding with the same slice must end like the first (seed C15-m18:
+	// used hints struck out in place; the second use dereferenced nil).
+	before := append([]reflect.Type(nil), hints...)
+	out := dec()
+	for i := range before {
+		if hints[i] != before[i] {
+			return fmt.Sprintf("panic:caller-hints-modified (hint %d of %d is %v after the call, was %v; first result %s)", i, len(before), hints[i], before[i], c15Clip(out, 60))
 		}
-		return dumpAny(o), nil
-	})
+	}
+	if again := dec(); again != out {
+		if strings.HasPrefix(again, "panic") {
+			return again + " (second decoding with the same hint slice; first result " + c15Clip(out, 60) + ")"
+		}
+		return "panic:second-decoding-differs (same bytes, same hint slice: first " + c15Clip(out, 60) + ", then " + c15Clip(again, 60) + ")"
+	}
+	return out
+}
+
+func c15Clip(s string, n int) string {
+	if len(s) > n {
+		return s[:n] + "…"
+	}
+	return s
 }
 
 func c15DecodeNamed(id uint32, bs []byte) string {
